@@ -19,7 +19,7 @@ attribute [local instance] infOfBounded
 /-! ## Len -/
 
 section len
-variable {α : Type}
+variable {α : Type} [LT α] [DecidableLT α]
 
 mutual
 /-- **C04_len.** `Len()` is the number of vertices, for every geometry without nil members. -/
@@ -33,7 +33,8 @@ theorem C04_len (g : Geom α) (h : noNil g = true) : lenG g = .ok (vertices g).l
   | multiLineString ls => simp [lenG, vertices, sumLen_eq]
   | polygon rs => simp [lenG, vertices, sumLen_eq]
   | multiPolygon ps => simp [lenG, vertices, sumLen2_eq]
-  | bounds mn mx => rfl
+  | bounds mn mx =>
+    by_cases hE : (decide (mx.x < mn.x) || decide (mx.y < mn.y)) = true <;> simp [lenG, vertices, Box.empty, hE]
 theorem C04_lenL (gs : List (Geom α)) (h : noNilL gs = true) : lenL gs = .ok (verticesL gs).length := by
   cases gs with
   | nil => rfl
@@ -290,80 +291,148 @@ theorem C04_extend_empty (a b : Box α) (hb : b.empty = true) : a.extend (some b
 
 /-! ## Bounds() -/
 
+/-- `vertices` of a `*Bounds`, by emptiness of the box -/
+theorem vertices_bounds_empty (mn mx : Pt α) (h : Box.empty (⟨mn, mx⟩ : Box α) = true) :
+    vertices (.bounds mn mx) = [] := by
+  simp only [Box.empty] at h; simp [vertices, h]
+
+theorem vertices_bounds_nonempty (mn mx : Pt α) (h : Box.empty (⟨mn, mx⟩ : Box α) = false) :
+    vertices (.bounds mn mx) = [mn, ⟨mx.x, mn.y⟩, mx, ⟨mn.x, mx.y⟩] := by
+  simp only [Box.empty] at h; simp [vertices, h]
+
 mutual
-theorem bounds_inv (g : Geom α) (h : noNil g = true) (hb : boxesNonEmpty g = true) :
-    ∃ b, boundsG g = .ok b ∧ Inv (vertices g) b := by
+/-- `Bounds()` of any geometry satisfies the envelope invariant — or the geometry is a `*Bounds` without points
+(then `Bounds()` is that box, possibly not in canonical form, and there is no vertex) -/
+theorem bounds_inv' (g : Geom α) (h : noNil g = true) :
+    ∃ b, boundsG g = .ok b ∧
+      (Inv (vertices g) b ∨ (∃ mn mx, g = .bounds mn mx ∧ b = ⟨mn, mx⟩ ∧ b.empty = true ∧ vertices g = [])) := by
   cases g with
   | nil => simp [noNil] at h
-  | point p => exact ⟨_, rfl, Inv.ofPoint p⟩
-  | multiPoint ps => exact ⟨_, rfl, by simpa [vertices, Box.extendPoints] using Inv.new.extendPoints ps⟩
-  | lineString ps => exact ⟨_, rfl, by simpa [vertices] using Inv.new.extendPoints ps⟩
-  | multiLineString ls => exact ⟨_, rfl, by simpa [vertices] using Inv.new.foldLines ls⟩
-  | polygon rs => exact ⟨_, rfl, by simpa [vertices] using Inv.new.extendPointss rs⟩
-  | multiPolygon ps => exact ⟨_, rfl, by simpa [vertices] using Inv.new.foldPolys ps⟩
-  | bounds mn mx => exact ⟨_, rfl, Inv.corners mn mx (by simpa [boxesNonEmpty] using hb)⟩
+  | point p => exact ⟨_, rfl, .inl (Inv.ofPoint p)⟩
+  | multiPoint ps => exact ⟨_, rfl, .inl (by simpa [vertices, Box.extendPoints] using Inv.new.extendPoints ps)⟩
+  | lineString ps => exact ⟨_, rfl, .inl (by simpa [vertices] using Inv.new.extendPoints ps)⟩
+  | multiLineString ls => exact ⟨_, rfl, .inl (by simpa [vertices] using Inv.new.foldLines ls)⟩
+  | polygon rs => exact ⟨_, rfl, .inl (by simpa [vertices] using Inv.new.extendPointss rs)⟩
+  | multiPolygon ps => exact ⟨_, rfl, .inl (by simpa [vertices] using Inv.new.foldPolys ps)⟩
+  | bounds mn mx =>
+    refine ⟨⟨mn, mx⟩, rfl, ?_⟩
+    cases hE : Box.empty (⟨mn, mx⟩ : Box α) with
+    | true => exact .inr ⟨mn, mx, rfl, rfl, by first | exact hE | rfl, vertices_bounds_empty mn mx hE⟩
+    | false =>
+      rw [vertices_bounds_nonempty mn mx hE]
+      exact .inl (Inv.corners mn mx (by rw [← model_empty_eq]; exact hE))
   | collection gs =>
-    have := boundsL_inv gs (by simpa [noNil] using h) (by simpa [boxesNonEmpty] using hb) [] Box.new Inv.new
-    simpa [boundsG, vertices] using this
-theorem boundsL_inv (gs : List (Geom α)) (h : noNilL gs = true) (hb : boxesNonEmptyL gs = true)
+    obtain ⟨b, e, hb⟩ := boundsL_inv gs (by simpa [noNil] using h) [] Box.new Inv.new
+    exact ⟨b, by simpa [boundsG] using e, .inl (by simpa [vertices] using hb)⟩
+theorem boundsL_inv (gs : List (Geom α)) (h : noNilL gs = true)
     (S : List (Pt α)) (b : Box α) (hi : Inv S b) :
     ∃ b', boundsL gs b = .ok b' ∧ Inv (S ++ verticesL gs) b' := by
   cases gs with
   | nil => exact ⟨b, rfl, by simpa [verticesL] using hi⟩
   | cons g gs =>
     simp only [noNilL, Bool.and_eq_true] at h
-    simp only [boxesNonEmptyL, Bool.and_eq_true] at hb
-    obtain ⟨bg, e, hg⟩ := bounds_inv g h.1 hb.1
-    obtain ⟨b', e', h'⟩ := boundsL_inv gs h.2 hb.2 (S ++ vertices g) (b.extend (some bg)) (hi.extend hg)
-    exact ⟨b', by simp [boundsL, e, e', bind, Except.bind], by simpa [verticesL, List.append_assoc] using h'⟩
+    obtain ⟨bg, e, hg⟩ := bounds_inv' g h.1
+    rcases hg with hg | ⟨mn, mx, _, _, hE, hv⟩
+    · obtain ⟨b', e', h'⟩ := boundsL_inv gs h.2 (S ++ vertices g) (b.extend (some bg)) (hi.extend hg)
+      exact ⟨b', by simp [boundsL, e, e', bind, Except.bind], by simpa [verticesL, List.append_assoc] using h'⟩
+    · -- a member without points: `Extend` ignores its box, and it has no vertex
+      obtain ⟨b', e', h'⟩ := boundsL_inv gs h.2 S b hi
+      have hx : b.extend (some bg) = b := C04_extend_empty b bg hE
+      exact ⟨b', by simp [boundsL, e, hx, e', bind, Except.bind], by simpa [verticesL, hv] using h'⟩
 end
 
-/-- **C04_bounds.** For every geometry (no nil members; every `*Bounds` used as a geometry has a
-point) `Bounds()` does not panic and returns the smallest box containing exactly the vertices —
-the empty box `(+Inf,+Inf)-(-Inf,-Inf)` when there are none — whatever empty members it has. -/
-theorem C04_bounds (g : Geom α) (h : noNil g = true) (hb : boxesNonEmpty g = true) :
+/-- the strict reading needs a canonical box only when the geometry IS the box -/
+theorem bounds_inv (g : Geom α) (h : noNil g = true) (hc : topCanon g = true) :
+    ∃ b, boundsG g = .ok b ∧ Inv (vertices g) b := by
+  obtain ⟨b, e, hb⟩ := bounds_inv' g h
+  refine ⟨b, e, ?_⟩
+  rcases hb with hb | ⟨mn, mx, rfl, rfl, hE, hv⟩
+  · exact hb
+  · rw [hv]
+    simp only [topCanon, canonB, Bool.or_eq_true, Bool.not_eq_true', decide_eq_true_eq] at hc
+    rcases hc with hc | hc
+    · rw [model_empty_eq] at hE; rw [hE] at hc; cases hc
+    · rw [hc]; exact Inv.new
+
+/-- **C04_bounds.** For every geometry (no nil members) `Bounds()` does not panic and returns the smallest box
+containing exactly the vertices — the empty box `(+Inf,+Inf)-(-Inf,-Inf)` when there are none — whatever empty
+members it has, `*Bounds` without points among them.  (`topCanon`: if the geometry is itself a `*Bounds` without
+points, "the empty box" is read literally only for `NewBounds()`; see `C04_bounds_sets` for all boxes.) -/
+theorem C04_bounds (g : Geom α) (h : noNil g = true) (hc : topCanon g = true) :
     ∃ b, boundsG g = .ok b ∧ IsEnvelope (vertices g) b := by
-  obtain ⟨b, e, hi⟩ := bounds_inv g h hb
+  obtain ⟨b, e, hi⟩ := bounds_inv g h hc
   exact ⟨b, e, hi.isEnvelope⟩
 
-/-- The statement without `boxesNonEmpty` is false (`C04_bounds_emptybox_counterexample`, known finding
-"a *Bounds without points still has Len() = 4"); this is the strongest true form.
-Full statement, not provable: `noNil g → ∃ b, boundsG g = .ok b ∧ IsEnvelope (vertices g) b`. -/
-theorem C04_bounds_partial (g : Geom α) (h : noNil g = true) (hb : boxesNonEmpty g = true) :
-    ∃ b, boundsG g = .ok b ∧ IsEnvelope (vertices g) b := C04_bounds g h hb
+/-- the literal reading implies the point-set reading -/
+theorem isEnvelopeSet_of_isEnvelope (vs : List (Pt α)) (b : Box α) (h : IsEnvelope vs b) : IsEnvelopeSet vs b := by
+  cases vs with
+  | nil =>
+    simp only [IsEnvelope] at h
+    subst h
+    refine ⟨by simp, fun c _ p hp => ?_⟩
+    obtain ⟨h1, h2, _, _⟩ := hp
+    simp only [emptyBox, pinf_eq, ninf_eq] at h1 h2
+    have tb : (⊤ : α) ≤ ⊥ := le_trans h1 h2
+    have all : ∀ x y : α, x ≤ y := fun x y => le_trans le_top (le_trans tb bot_le)
+    exact ⟨all _ _, all _ _, all _ _, all _ _⟩
+  | cons v vs => exact h
 
-/-- … in particular `Bounds()` is empty iff there is no vertex (given `-Inf < +Inf`). -/
-theorem C04_bounds_empty_iff (hne : (⊥ : α) < ⊤) (g : Geom α) (h : noNil g = true)
-    (hb : boxesNonEmpty g = true) :
-    ∃ b, boundsG g = .ok b ∧ (b.empty = true ↔ vertices g = []) := by
-  obtain ⟨b, e, hi⟩ := bounds_inv g h hb
+/-- **C04_bounds_sets.** The Bounds clause for ALL geometries without nil members, boxes read as point sets:
+`Bounds()` contains every vertex and is included in every box that does; with no vertex it is a box without
+points.  No hypothesis about `*Bounds` values (since `fix: (*Bounds).Len is 0 for an empty box`). -/
+theorem C04_bounds_sets (g : Geom α) (h : noNil g = true) :
+    ∃ b, boundsG g = .ok b ∧ IsEnvelopeSet (vertices g) b := by
+  obtain ⟨b, e, hb⟩ := bounds_inv' g h
   refine ⟨b, e, ?_⟩
-  rw [model_empty_eq]
-  constructor
-  · intro he
-    cases hv : vertices g with
-    | nil => rfl
-    | cons v vs =>
-      have := hi.nonempty_of_mem (v := v) (by simp [hv])
-      simp [he] at this
-  · intro hv
-    have := hi.isEnvelope
-    rw [hv] at this
-    simp only [IsEnvelope] at this
-    subst this
-    simp [emptyB, emptyBox, pinf_eq, ninf_eq, not_le.mpr hne]
+  rcases hb with hb | ⟨mn, mx, _, _, hE, hv⟩
+  · exact isEnvelopeSet_of_isEnvelope _ _ hb.isEnvelope
+  · rw [hv]
+    exact ⟨by simp, fun c _ => sub_of_empty b c (by rw [← model_empty_eq]; exact hE)⟩
 
-/-- A `*Bounds` without points used as a geometry is outside `C04_bounds`: `Len()` is 4 and the
-envelope of the four "corners" of `NewBounds()` is the whole plane, not the box itself. -/
-theorem C04_bounds_emptybox_counterexample (hne : (⊥ : α) < ⊤) :
-    boundsG (.bounds ⟨⊤, ⊤⟩ ⟨⊥, ⊥⟩ : Geom α) = .ok ⟨⟨⊤, ⊤⟩, ⟨⊥, ⊥⟩⟩ ∧
-    ¬ IsEnvelope (vertices (.bounds ⟨⊤, ⊤⟩ ⟨⊥, ⊥⟩ : Geom α)) ⟨⟨⊤, ⊤⟩, ⟨⊥, ⊥⟩⟩ := by
-  refine ⟨rfl, ?_⟩
-  simp only [vertices, IsEnvelope]
-  rintro ⟨h, _⟩
-  have := (h ⟨⊤, ⊤⟩ (by simp)).2.1
-  simp only at this
-  exact absurd this (not_le.mpr hne)
+/-- The strict form `C04_bounds` with its (weak) hypothesis spelled out once more; the statement without
+`topCanon` is false only for a hand-written non-canonical empty box used directly as a geometry
+(`C04_bounds_noncanon_counterexample`), where `C04_bounds_sets` applies. -/
+theorem C04_bounds_partial (g : Geom α) (h : noNil g = true) (hc : topCanon g = true) :
+    ∃ b, boundsG g = .ok b ∧ IsEnvelope (vertices g) b := C04_bounds g h hc
+
+/-- … in particular `Bounds()` is empty iff there is no vertex (given `-Inf < +Inf`), for all geometries. -/
+theorem C04_bounds_empty_iff (hne : (⊥ : α) < ⊤) (g : Geom α) (h : noNil g = true) :
+    ∃ b, boundsG g = .ok b ∧ (b.empty = true ↔ vertices g = []) := by
+  obtain ⟨b, e, hb⟩ := bounds_inv' g h
+  refine ⟨b, e, ?_⟩
+  rcases hb with hi | ⟨mn, mx, _, _, hE, hv⟩
+  · rw [model_empty_eq]
+    constructor
+    · intro he
+      cases hv : vertices g with
+      | nil => rfl
+      | cons v vs =>
+        have := hi.nonempty_of_mem (v := v) (by simp [hv])
+        simp [he] at this
+    · intro hv
+      have := hi.isEnvelope
+      rw [hv] at this
+      simp only [IsEnvelope] at this
+      subst this
+      simp [emptyB, emptyBox, pinf_eq, ninf_eq, not_le.mpr hne]
+  · simp [hE, hv]
+
+/-- `topCanon` cannot be dropped from the literal reading: an inverted box other than `NewBounds()` used as a
+geometry has no vertex and `Bounds()` returns it unchanged — a box without points, but not the struct
+`(+Inf,+Inf)-(-Inf,-Inf)`. -/
+theorem C04_bounds_noncanon_counterexample (hne : (⊥ : α) < ⊤) :
+    boundsG (.bounds ⟨⊤, ⊥⟩ ⟨⊥, ⊥⟩ : Geom α) = .ok ⟨⟨⊤, ⊥⟩, ⟨⊥, ⊥⟩⟩ ∧
+    vertices (.bounds ⟨⊤, ⊥⟩ ⟨⊥, ⊥⟩ : Geom α) = [] ∧
+    ¬ IsEnvelope (vertices (.bounds ⟨⊤, ⊥⟩ ⟨⊥, ⊥⟩ : Geom α)) ⟨⟨⊤, ⊥⟩, ⟨⊥, ⊥⟩⟩ := by
+  have hv : vertices (.bounds ⟨⊤, ⊥⟩ ⟨⊥, ⊥⟩ : Geom α) = [] := by simp [vertices, hne]
+  refine ⟨rfl, hv, ?_⟩
+  rw [hv]
+  simp only [IsEnvelope, emptyBox, pinf_eq, ninf_eq]
+  intro h
+  have : (⊥ : α) = ⊤ := by
+    have := congrArg (fun b : Box α => b.mn.y) h
+    simpa using this
+  exact absurd this (ne_of_lt hne)
 
 /-! ## the run-time judge checks exactly the specification
 
@@ -373,6 +442,26 @@ each is equivalent to the semantic statement it stands for. -/
 /-- judge, `Bounds()` verdict: `isEnvelopeB` ⇔ "smallest box containing exactly the vertices" -/
 theorem C04_spec_envelope (vs : List (Pt α)) (b : Box α) : isEnvelopeB vs b = true ↔ IsEnvelope vs b :=
   isEnvelopeB_iff vs b
+
+/-- `isEnvelopeSetB` (used by the judge for a non-canonical empty `*Bounds` given directly as the geometry)
+decides the point-set reading of the envelope clause (given `-Inf < +Inf`, i.e. boxes without points exist). -/
+theorem C04_spec_envelopeSet (hne : (⊥ : α) < ⊤) (vs : List (Pt α)) (b : Box α) :
+    isEnvelopeSetB vs b = true ↔ IsEnvelopeSet vs b := by
+  cases vs with
+  | cons v vs => simpa [isEnvelopeSetB, IsEnvelopeSet, Smallest] using tightB_iff v vs b
+  | nil =>
+    simp only [isEnvelopeSetB, IsEnvelopeSet]
+    constructor
+    · intro h; exact ⟨by simp, fun c _ => sub_of_empty b c h⟩
+    · rintro ⟨_, h⟩
+      cases he : emptyB b with
+      | true => rfl
+      | false =>
+        obtain ⟨hx, hy⟩ := (not_emptyB b).1 he
+        have hm : mem b.mn b := ⟨le_refl _, hx, le_refl _, hy⟩
+        obtain ⟨h1, h2, _, _⟩ := h emptyBox (by simp) b.mn hm
+        simp only [emptyBox, pinf_eq, ninf_eq] at h1 h2
+        exact absurd (le_trans h1 h2) (not_le.mpr hne)
 
 /-- judge, `Extend` verdict: `isJoinB` ⇔ least upper bound (all boxes, canonical or not) -/
 theorem C04_spec_join (a b j : Box α) : isJoinB a b j = true ↔ IsJoin a b j := isJoinB_iff a b j
@@ -419,8 +508,12 @@ example : noNil (.collection [.collection [], .polygon [[], [], [⟨1, 1⟩]], .
 example : pointsOf (.collection [.collection [], .polygon [[], [], [⟨1, 1⟩]], .multiPolygon [[], [[]], [[⟨2, 2⟩]]],
     .collection [.multiPoint [], .point ⟨3, 3⟩]] : Geom Nat) = .ok [⟨1, 1⟩, ⟨2, 2⟩, ⟨3, 3⟩] := by decide
 
-/-- `boxesNonEmpty` / `Canon` / non-emptiness hold for ordinary boxes over the float-value order -/
-example : boxesNonEmpty (.collection [.bounds ⟨0, 0⟩ ⟨1, 2⟩, .point ⟨5, 5⟩] : Geom Nat) = true := by decide
+private def fk (n : Nat) (h : n ≤ 1000 := by decide) : FKey := ⟨n, by simp only [KMAX]; constructor <;> omega⟩
+
+/-- `topCanon` / `Canon` / non-emptiness hold for ordinary boxes; members of a collection are unrestricted -/
+example : topCanon (.bounds ⟨fk 0, fk 0⟩ ⟨fk 1, fk 2⟩ : Geom FKey) = true := by decide
+example : topCanon (.bounds ⟨pinf, pinf⟩ ⟨ninf, ninf⟩ : Geom FKey) = true := by decide
+example : topCanon (.collection [.bounds ⟨fk 2, fk 0⟩ ⟨fk 1, fk 1⟩, .point ⟨fk 5, fk 5⟩] : Geom FKey) = true := by decide
 example : emptyB (⟨⟨0, 0⟩, ⟨1, 2⟩⟩ : Box Nat) = false := by decide
 
 end GeomV.C04
@@ -432,10 +525,9 @@ open GeomV GeomV.C04.Spec
 /-- **C04_exec.** The model the driver runs (coordinates = float64 *values*, `FKey`, with the core
 `≤ < min max ±Inf` instances) is an instance of the theorems: stated here for `Bounds()`, with every
 instance argument spelled out. -/
-theorem C04_exec (g : Geom FKey) (h : noNil g = true)
-    (hb : @boxesNonEmpty FKey FKey.instLE FKey.instDecLE g = true) :
+theorem C04_exec (g : Geom FKey) (h : noNil g = true) :
     ∃ b, @boundsG FKey FKey.instLT FKey.instMin FKey.instMax FKey.instDecLT FKey.instHasInf g = .ok b ∧
-      @IsEnvelope FKey FKey.instLE FKey.instHasInf (vertices g) b :=
-  C04_bounds g h hb
+      @IsEnvelopeSet FKey FKey.instLE (@vertices FKey FKey.instLT FKey.instDecLT g) b :=
+  C04_bounds_sets g h
 
 end GeomV.C04
